@@ -64,6 +64,7 @@ def run_J3(ctx, case):
         mem.mkarr('sp', P.L3); S0 = mem.objs['sp']['arr']
         if light: mem.alloc(64, 'cachemem')
         else: mem.mkarr('dataset', P.DATASET_BASE + P.DATASET_EXTRA); D0 = mem.objs['dataset']['arr']
+        mem.share('dataset', 'cachemem')
         mem.alloc(256, 'regfile'); A = [[z3.BitVec('a%d_%d' % (i, l), 64) for l in range(2)] for i in range(4)]
         for k in range(0, 192, 8): mem.store(Ptr('regfile', k), z3.BitVec('rf_stale%d' % k, 64), 8)
         for i in range(4):
@@ -371,7 +372,7 @@ def run_J5(ctx, case):
         it.call('_ZN7randomx14JitCompilerX8623generateDatasetInitCodeEv', [J])
         # ---- machine: randomx_dataset_init(cache*, dataset ptr, startItem, endItem)   (System V)
         mem = it.mem; CACHE = P.ARGON_MEMORY * 1024
-        mem.mkarr('cachemem', CACHE); C0 = mem.objs['cachemem']['arr']; mem.alloc(64, 'cacheobj'); mem.store(Ptr('cacheobj', 0), Ptr('cachemem', 0), 8)
+        mem.mkarr('cachemem', CACHE); C0 = mem.objs['cachemem']['arr']; mem.alloc(64, 'cacheobj'); mem.store(Ptr('cacheobj', 0), Ptr('cachemem', 0), 8); mem.share('cachemem', 'cacheobj')
         loads = []
         def cache_load(off, nbytes):      # cut point: 8 bytes read from the read-only cache at a recorded address
             v = z3.BitVec('cacheword%d' % len(loads), 8 * nbytes); loads.append((bv(off, 64), nbytes, v)); return v
